@@ -4,7 +4,7 @@ Every case runs the public pyrepseq function (headless matplotlib), reads the re
 compares them with the extracted Coq model (coq/model/Summaries.v); where the property is an executable predicate
 (consensus, regex language) the predicate proved equal to the Prop-level specification is evaluated on the
 implementation's own output, so a 'property' violation is a concrete input on which the statement fails."""
-import itertools, math, re
+import itertools, math, os, re, time
 from fractions import Fraction
 import numpy as np
 import pandas as pd
@@ -80,14 +80,42 @@ def strip(s):
     return ''.join(c for c in s if c not in GAPS)
 
 
+NP_INT_KINDS = ('int8', 'uint8', 'int16', 'uint16', 'int32', 'uint32', 'int64', 'uint64')
+STR_KINDS = ['list', 'tuple', 'array', 'series', 'array_obj', 'series_str', 'series_perm', 'series_dup', 'series_string', 'dfcol']
+
+
 def container(kind, values, index=None):
+    """The same values in one of the container kinds a caller may hand in.  The `series_*` / `dfcol` kinds carry an index that
+    is not 0..n-1 (string labels, reversed labels, one repeated label): the functions of this property take their input by
+    position, never by label."""
+    values = list(values)
+    n = len(values)
     if kind == 'list':
-        return list(values)
+        return values
     if kind == 'tuple':
         return tuple(values)
     if kind == 'array':
         return np.array(values)
-    return pd.Series(list(values), index=index)
+    if kind == 'array_obj':
+        return np.array(values, dtype=object)
+    if kind in NP_INT_KINDS:
+        return np.array(values, dtype=kind)
+    empty = dict(dtype=float) if n == 0 else {}
+    if kind == 'series_str':
+        return pd.Series(values, index=['k%d' % (n - i) for i in range(n)], **empty)
+    if kind == 'series_perm':
+        return pd.Series(values, index=list(range(n - 1, -1, -1)), **empty)
+    if kind == 'series_dup':
+        return pd.Series(values, index=[0] * n, **empty)
+    if kind == 'series_string':
+        return pd.Series(values, dtype='string')
+    if kind == 'series_cat':
+        return pd.Series(values, dtype='category')
+    if kind == 'dfcol':
+        return pd.DataFrame({'other': list(range(n)), 'v': pd.Series(values, **empty)}).set_axis(['r%d' % (i * 7 % 10) for i in range(n)])['v']
+    if kind in ('Int64', 'Float64'):      # pandas nullable dtypes: a missing value is pd.NA
+        return pd.Series([pd.NA if (isinstance(v, float) and math.isnan(v)) else v for v in values], dtype=kind)
+    return pd.Series(values, index=index, **empty)
 
 
 # ------------------------------------------------------------------ seqs_to_regex / seqs_to_consensus / seqlogos
@@ -117,12 +145,70 @@ def regex_tests(rng, seqs, cap):
     return sorted(tests), False
 
 
-def chk_regex(ctx, seqs, tests, kind='list'):
+def _how(kind, opts):
+    """How the call was made, put in front of every message of the alignment checks (the texts name the plain call)."""
+    parts = [] if kind == 'list' else ['sequences handed in as %s' % kind]
+    o = opts or {}
+    if o.get('positional'):
+        parts.append('align by position')
+    if o.get('np_bool'):
+        parts.append('align=numpy.False_')
+    if o.get('twice'):
+        parts.append('second call on the same object' + (' refilled in place after a first call with other sequences' if o['twice'] == 'refill' else ''))
+    if o.get('ax'):
+        parts.append('ax given (%s)' % o['ax'])
+    if o.get('logo_kws'):
+        parts.append('logomaker keyword arguments %s' % o['logo_kws'])
+    return '[%s] ' % '; '.join(parts) if parts else ''
+
+
+def refill(obj, values):
+    """Overwrite the content of a mutable container in place (the caller reuses one preallocated object); False when the kind is immutable."""
+    values = list(values)
+    if isinstance(obj, list):
+        obj[:] = values
+    elif isinstance(obj, np.ndarray):
+        obj[...] = np.array(values, dtype=obj.dtype)
+    elif isinstance(obj, pd.Series):
+        obj.iloc[:] = values
+    else:
+        return False
+    return True
+
+
+def _call_noalign(f, kind, seqs, opts):
+    """f(container, align=False), with `align` handed over positionally when opts['positional'] and as numpy.False_ when
+    opts['np_bool'] (the documented type is `boolean`).  opts['twice'] = 'same': the call is
+    made twice on the same object; 'refill': the object first holds another alignment of the same shape (every sequence reversed, list
+    reversed), is passed once, is then refilled in place with `seqs` and passed again.  The last answer is the one examined."""
+    opts = opts or {}
+    no = np.False_ if opts.get('np_bool') else False
+    call = (lambda o: call_impl(f, o, no)) if opts.get('positional') else (lambda o: call_impl(f, o, align=no))
+    if opts.get('twice') == 'refill':
+        obj = container(kind, [s[::-1] for s in seqs][::-1])
+        call(obj)
+        if not refill(obj, seqs):
+            obj = container(kind, seqs)
+        return call(obj)
+    obj = container(kind, seqs)
+    if opts.get('twice'):
+        call(obj)
+    return call(obj)
+
+
+def chk_regex(ctx, seqs, tests, kind='list', opts=None):
+    out = _chk_regex(ctx, seqs, tests, kind, opts)
+    for v in out:
+        v['what'] = _how(kind, opts) + v['what']
+    return out
+
+
+def _chk_regex(ctx, seqs, tests, kind='list', opts=None):
     import pyrepseq.util as ut
     out = []
     gapless = not any(c in GAPS for s in seqs for c in s)
-    rep = dict(func='seqs_to_regex', seqs=list(seqs), container=kind)
-    impl = call_impl(ut.seqs_to_regex, container(kind, seqs), align=False)
+    rep = dict(func='seqs_to_regex', seqs=list(seqs), container=kind, opts=opts)
+    impl = _call_noalign(ut.seqs_to_regex, kind, seqs, opts)
     m_str, m_acc = orun(ctx, [('api_c19_regex', [list(seqs)]), ('api_c19_regex_matches', [list(seqs), list(tests)])])
     if impl[0] != 'ok' or not isinstance(impl[1], str):
         return [V('property', 'seqs_to_regex(%s, align=False) -> %s; expected the expression %r' % (list(seqs), impl, m_str), rep, 'util.seqs_to_regex')]
@@ -149,11 +235,18 @@ def chk_regex(ctx, seqs, tests, kind='list'):
     return out
 
 
-def chk_consensus(ctx, seqs, kind='list'):
+def chk_consensus(ctx, seqs, kind='list', opts=None):
+    out = _chk_consensus(ctx, seqs, kind, opts)
+    for v in out:
+        v['what'] = _how(kind, opts) + v['what']
+    return out
+
+
+def _chk_consensus(ctx, seqs, kind='list', opts=None):
     import pyrepseq.util as ut
     gapless = not any(c in GAPS for s in seqs for c in s)
-    rep = dict(func='seqs_to_consensus', seqs=list(seqs), container=kind)
-    impl = call_impl(ut.seqs_to_consensus, container(kind, seqs), align=False)
+    rep = dict(func='seqs_to_consensus', seqs=list(seqs), container=kind, opts=opts)
+    impl = _call_noalign(ut.seqs_to_consensus, kind, seqs, opts)
     model = orun(ctx, [('api_c19_consensus', [list(seqs)])])[0]
     if impl[0] != 'ok' or not isinstance(impl[1], str):
         return [V('property', 'seqs_to_consensus(%s, align=False) -> %s; a consensus is %r' % (list(seqs), impl, model), rep, 'util.seqs_to_consensus')]
@@ -168,12 +261,29 @@ def chk_consensus(ctx, seqs, kind='list'):
     return []
 
 
-def chk_counts(ctx, seqs, kind='list', index=None):
+def chk_counts(ctx, seqs, kind='list', index=None, opts=None):
+    out = _chk_counts(ctx, seqs, kind, index, opts)
+    for v in out:
+        v['what'] = _how(kind, opts) + v['what']
+    return out
+
+
+def _chk_counts(ctx, seqs, kind='list', index=None, opts=None):
+    """opts: ax = None (seqlogos makes its own figure) | 'kw' | 'pos' (an existing Axes handed in); logo_kws = keyword
+    arguments passed through to logomaker.Logo (they change the drawing, never the counts)."""
     import pyrepseq.plotting as pl
     plt = _plt()
-    rep = dict(func='seqlogos', seqs=list(seqs), container=kind, index=index)
+    opts = opts or {}
+    rep = dict(func='seqlogos', seqs=list(seqs), container=kind, index=index, opts=opts)
     try:
-        impl = call_impl(pl.seqlogos, container(kind, seqs, index))
+        a, kw = [container(kind, seqs, index)], dict(opts.get('logo_kws') or {})
+        if opts.get('ax'):
+            fig, ax = plt.subplots(figsize=(max(1.0, 0.3 * len(seqs[0])), 0.6))
+            if opts['ax'] == 'pos':
+                a.append(ax)
+            else:
+                kw['ax'] = ax
+        impl = call_impl(pl.seqlogos, *a, **kw)
         alpha, mat = orun(ctx, [('api_c19_counts', [list(seqs)])])[0]
         if impl[0] != 'ok':
             return [V('property', 'seqlogos(%s) -> %s; expected the count matrix %s over residues %r' % (list(seqs), impl, mat, alpha), rep, 'plotting.seqlogos')]
@@ -213,6 +323,45 @@ def gen_alignment(rng, quick, small=False):
     return [''.join(s) for s in seqs]
 
 
+AA20 = 'ACDEFGHIKLMNPQRSTVWY'
+POOLS = [AA20, 'ABCDEFGHIJKLMNOPQRSTUVWXY', AA20 + 'acdefg' + '0123456789']       # never the foreign letter Z
+
+
+def gen_alignment_wide(rng, n=None, L=None):
+    """Many sequences / many columns / the full residue alphabet: counts of two and three digits (10, 100, 127/128, 255/256, 1000),
+    more than nine positions, columns that are conserved, dominated by one residue, uniform over many residues, or nearly tied
+    between two residues (counts differing by at most one at a high count), 40% pre-aligned with gap fractions around one half."""
+    n = n or rng.choice([9, 10, 11, 12, 16, 33, 100, 127, 128, 129, 255, 256, 257, 300])
+    L = L or rng.choice([8, 9, 10, 11, 12, 14, 20, 33])
+    pool = rng.choice(POOLS)
+    cols = []
+    for p in range(L):
+        style = rng.random()
+        if style < 0.2:
+            col = [rng.choice(pool)] * n
+        elif style < 0.45:
+            a = rng.choice(pool)
+            col = [a if rng.random() < 0.9 else rng.choice(pool) for _ in range(n)]
+        elif style < 0.7:
+            a, b = rng.sample(pool, 2)
+            h = n // 2 + rng.choice([0, 0, 1]) if n > 1 else 1
+            col = [a] * h + [b] * (n - h)
+            for _ in range(rng.choice([0, 0, 1, 2])):
+                col[rng.randrange(n)] = rng.choice(pool)
+            rng.shuffle(col)
+        else:
+            sub = rng.sample(pool, rng.randint(2, len(pool)))
+            col = [rng.choice(sub) for _ in range(n)]
+        cols.append(col)
+    if rng.random() < 0.4 and n > 1:
+        for col in cols:
+            if rng.random() < 0.4:
+                g = min(n - 1, max(0, rng.choice([1, 2, n // 2 - 1, n // 2, n // 2 + 1, n - 1, rng.randint(0, n - 1)])))
+                for i in rng.sample(range(n), g):
+                    col[i] = rng.choice(GAPS)
+    return [''.join(col[i] for col in cols) for i in range(n)]
+
+
 def valid_alignment(seqs):
     return (len(seqs) >= 1 and len(seqs[0]) >= 1 and all(len(s) == len(seqs[0]) for s in seqs)
             and all(any(s[p] not in GAPS for s in seqs) for p in range(len(seqs[0]))))
@@ -232,38 +381,102 @@ def shrink_alignment(seqs, fails):
 
 
 # ------------------------------------------------------------------ rankfrequency
-def chk_rank(ctx, data, normx, normy, logx, logy, sx, sy, kind='list', use_gca=False, shift=0):
-    """data: list of Fractions / None (= NaN)."""
+RANK_DEFAULTS = dict(normalize_x=True, normalize_y=False, log_x=True, log_y=True, scalex=1.0, scaley=1.0)      # as documented
+ORACLE_RANK_MAX = 1200        # the extracted insertion sort is quadratic: longer inputs use spec_rank alone
+
+
+def spec_rank(normx, normy, sx, sy, data):
+    """The statement itself in exact rationals, computed without the model: non-missing values (divided by their sum when
+    normalised) in descending order, times scalex, against scaley * rank (/ m when normalize_y).  It is compared with the
+    extracted model on every input short enough for the model (a self-check of the harness) and stands alone only beyond."""
+    nm = [v for v in data if v is not None]
+    if normx and nm:
+        tot = sum(nm)
+        if tot == 0:
+            return None
+        nm = [v / tot for v in nm]
+    m = len(nm)
+    return [v * sx for v in sorted(nm, reverse=True)], [sy * r / (m if normy else 1) for r in range(m)]
+
+
+def rank_kinds(data):
+    """Container kinds admissible for this data vector."""
+    kinds = ['list', 'tuple', 'array', 'series', 'series_str', 'series_perm', 'series_dup', 'dfcol', 'Float64']
+    ints = all(v is None or v.denominator == 1 for v in data)
+    if ints and data:
+        kinds.append('Int64')
+        if not any(v is None for v in data):
+            top = max(data)
+            kinds += [k for k in NP_INT_KINDS if top <= np.iinfo(k).max]
+    return kinds
+
+
+def chk_rank(ctx, data, normx, normy, logx, logy, sx, sy, kind='list', use_gca=False, shift=0, opts=None):
+    """data: list of Fractions / None (= NaN).  opts: omit_defaults (only options that differ from the documented defaults are
+    passed), ax_positional, int_scales (integral scale factors as int), tx = [a, b] (transform_x = a * x + b), step_kws (passed
+    through to Axes.step), pre = 'curve' | 'scatter' (the axes already hold another rankfrequency curve / a density_scatter)."""
     import pyrepseq.plotting as pl
     plt = _plt()
+    opts = opts or {}
     rep = dict(func='rankfrequency', data=[None if v is None else str(v) for v in data], normalize_x=normx, normalize_y=normy,
-               log_x=logx, log_y=logy, scalex=str(sx), scaley=str(sy), container=kind, use_gca=use_gca, shift=shift)
-    vals = [float('nan') if v is None else (int(v) if (v.denominator == 1 and not any(x is None for x in data)) else float(v)) for v in data]
+               log_x=logx, log_y=logy, scalex=str(sx), scaley=str(sy), container=kind, use_gca=use_gca, shift=shift, opts=opts)
+    as_int = all(v is not None and v.denominator == 1 for v in data) or kind == 'Int64'
+    vals = [float('nan') if v is None else (int(v) if as_int else float(v)) for v in data]
     try:
         fig, ax = plt.subplots()
-        kw = dict(normalize_x=normx, normalize_y=normy, log_x=logx, log_y=logy, scalex=float(sx), scaley=float(sy))
+        if opts.get('pre') == 'curve':
+            pl.rankfrequency([5, 3, 3, 1], ax=ax)
+        elif opts.get('pre') == 'scatter':
+            pl.density_scatter([1, 1, 2], [2, 2, 5], ax=ax, discrete=True)
+        n_before = len(ax.lines)
+        scale = lambda v: int(v) if (opts.get('int_scales') and v.denominator == 1) else float(v)
+        kw = dict(normalize_x=normx, normalize_y=normy, log_x=logx, log_y=logy, scalex=scale(sx), scaley=scale(sy))
+        if opts.get('omit_defaults'):
+            kw = {k: v for k, v in kw.items() if v != RANK_DEFAULTS[k]}
         if shift:
             kw['transform_y'] = lambda y: y + shift
+        ta, tb = [Fraction(v) for v in opts['tx']] if opts.get('tx') else (Fraction(1), Fraction(0))
+        if opts.get('tx'):
+            kw['transform_x'] = lambda x: float(ta) * x + float(tb)
+        kw.update(opts.get('step_kws') or {})
+        a = []
         if not use_gca:
-            kw['ax'] = ax
+            if opts.get('ax_positional'):
+                a.append(ax)
+            else:
+                kw['ax'] = ax
         arg = container(kind, vals, index=list(range(7, 7 + len(vals)))) if vals or kind != 'series' else pd.Series([], dtype=float)
-        impl = call_impl(pl.rankfrequency, arg, **kw)
-        model = orun(ctx, [('api_c19_rank', [normx, normy, sx, sy, list(data)])])[0]
+        impl = call_impl(pl.rankfrequency, arg, *a, **kw)
+        spec = spec_rank(normx, normy, sx, sy, list(data))
+        if len(data) <= ORACLE_RANK_MAX:
+            model = orun(ctx, [('api_c19_rank', [normx, normy, sx, sy, list(data)])])[0]
+            if (model is None) != (spec is None) or (model is not None and (list(model[0]), list(model[1])) != (spec[0], spec[1])):
+                return [V('correspondence', 'harness self-check: the rational rank curve of the harness and the extracted model differ on %s' % rep, rep,
+                          'plotting.rankfrequency')]
+        else:
+            model = spec
         if model is None:
             return []       # values summing to zero under normalisation: outside the stated domain
         xs, ys = model
+        xs = [ta * x + tb for x in xs]
         ys = [y + shift for y in ys]
-        desc = 'rankfrequency(%s, normalize_x=%s, normalize_y=%s, log_x=%s, log_y=%s, scalex=%s, scaley=%s)' % (vals, normx, normy, logx, logy, sx, sy)
+        shown = vals if len(vals) <= 40 else '%s ... (%d values)' % (vals[:12], len(vals))
+        desc = 'rankfrequency(%s [%s], %s%s)' % (shown, kind, ', '.join('%s=%r' % kv for kv in sorted(kw.items()) if not callable(kv[1]) and kv[0] != 'ax'),
+                                                 (', transform_x=%s*x+%s' % (ta, tb) if opts.get('tx') else '') + (', transform_y=y+%s' % shift if shift else ''))
+        cut = lambda seq: list(map(str, seq[:12])) + (['...'] if len(seq) > 12 else []) if len(seq) > 40 else list(map(str, seq))
         if impl[0] != 'ok':
-            return [V('property', '%s -> %s; expected the curve x=%s y=%s' % (desc, impl, list(map(str, xs)), list(map(str, ys))), rep, 'plotting.rankfrequency')]
+            return [V('property', '%s -> %s; expected the curve x=%s y=%s' % (desc, impl, cut(xs), cut(ys)), rep, 'plotting.rankfrequency')]
         lines = impl[1]
-        if len(lines) != 1 or lines[0] not in ax.lines:
+        if len(lines) != 1 or lines[0] not in ax.lines or len(ax.lines) != n_before + 1:
             return [V('property', '%s returned %d artists, not the one curve drawn on the axes' % (desc, len(lines)), rep, 'plotting.rankfrequency')]
         gx, gy = np.asarray(lines[0].get_xdata(), dtype=float), np.asarray(lines[0].get_ydata(), dtype=float)
         if len(gx) != len(xs) or len(gy) != len(ys) or not all(close(float(a), b) for a, b in zip(gx, xs)) or \
                 not all(close(float(a), b) for a, b in zip(gy, ys)):
-            return [V('property', '%s draws x=%s y=%s; the non-missing values in descending order against their 0-based ranks are x=%s y=%s' %
-                      (desc, gx.tolist(), gy.tolist(), list(map(str, xs)), list(map(str, ys))), rep, 'plotting.rankfrequency')]
+            bad = [i for i in range(min(len(gx), len(xs))) if not (close(float(gx[i]), xs[i]) and close(float(gy[i]), ys[i]))]
+            where = '' if not bad or len(xs) <= 40 else ' (lengths %d / %d; first difference at position %d: drawn (%r, %r), expected (%s, %s))' % (
+                len(gx), len(xs), bad[0], float(gx[bad[0]]), float(gy[bad[0]]), xs[bad[0]], ys[bad[0]])
+            return [V('property', '%s%s draws x=%s y=%s; the non-missing values in descending order against their 0-based ranks are x=%s y=%s' %
+                      (desc, where, cut(gx.tolist()), cut(gy.tolist()), cut(xs), cut(ys)), rep, 'plotting.rankfrequency')]
         return []
     finally:
         plt.close('all')
@@ -276,19 +489,40 @@ def tokens_sorted(labels):
     return [rank[v] for v in labels], uniq
 
 
-def chk_colours(ctx, which, labels, min_count, kind='list', npseed=0):
+HLS_DEFAULT = dict(l=0.5, s=0.8)        # the documented default of palette_kws
+
+
+def chk_colours(ctx, which, labels, min_count, kind='list', npseed=0, opts=None):
+    """opts: palette_kws (hls only: handed to seaborn.hls_palette), positional (palette_kws / min_count passed by position),
+    mc_np (min_count as numpy integer).  npseed None: NumPy's global generator is left in whatever state earlier calls put it."""
     import pyrepseq.plotting as pl
     import seaborn as sns
     plt = _plt()
-    rep = dict(func='labels_to_colors_' + which, labels=list(labels), min_count=min_count, container=kind, npseed=npseed)
+    opts = opts or {}
+    rep = dict(func='labels_to_colors_' + which, labels=list(labels), min_count=min_count, container=kind, npseed=npseed, opts=opts)
     site = 'plotting.labels_to_colors_' + which
     f = pl.labels_to_colors_hls if which == 'hls' else pl.labels_to_colors_tableau
     toks, uniq = tokens_sorted(labels)
-    np.random.seed(npseed)
-    kw = {} if min_count is None else dict(min_count=min_count)
-    impl = call_impl(f, container(kind, labels, index=list(range(3, 3 + len(labels)))), **kw)
+    if npseed is not None:
+        np.random.seed(npseed)
+    pk = opts.get('palette_kws') if which == 'hls' else None
+    mc = np.int64(min_count) if (opts.get('mc_np') and min_count is not None) else min_count
+    a, kw = [], {}
+    if opts.get('positional'):
+        if which == 'hls':
+            a.append(dict(pk) if pk is not None else dict(HLS_DEFAULT))
+        if min_count is not None:
+            a.append(mc)
+    else:
+        if pk is not None:
+            kw['palette_kws'] = dict(pk)
+        if min_count is not None:
+            kw['min_count'] = mc
+    impl = call_impl(f, container(kind, labels, index=list(range(3, 3 + len(labels)))), *a, **kw)
     freq = orun(ctx, [('api_c19_frequent', [min_count, toks])])[0]
-    desc = 'labels_to_colors_%s(%s, min_count=%s)' % (which, list(labels), min_count)
+    shown = list(labels) if len(labels) <= 60 else '%s ... (%d labels)' % (list(labels)[:20], len(labels))
+    desc = 'labels_to_colors_%s(%s [%s], min_count=%s%s%s)' % (which, shown, kind, min_count, '' if pk is None else ', palette_kws=%s' % pk,
+                                                              ', by position' if opts.get('positional') else '')
     if impl[0] != 'ok' or len(impl[1]) != len(labels):
         return [V('property', '%s -> %s; expected one colour per label' % (desc, impl if impl[0] != 'ok' else '%d colours' % len(impl[1])), rep, site)]
     cols = [tuple(float(x) for x in c) for c in impl[1]]
@@ -311,7 +545,7 @@ def chk_colours(ctx, which, labels, min_count, kind='list', npseed=0):
     # correspondence with the model: colours are palette slots assigned through some shuffle of the frequent labels
     k = len(freq)
     if which == 'hls':
-        palette = [tuple(float(x) for x in c) for c in sns.hls_palette(k, l=0.5, s=0.8)] if k else []
+        palette = [tuple(float(x) for x in c) for c in sns.hls_palette(k, **(pk if pk is not None else HLS_DEFAULT))] if k else []
         period = 0
     else:
         tab = list(plt.cm.tab20.colors[::2]) + list(plt.cm.tab20.colors[1::2])
@@ -340,35 +574,67 @@ def chk_colours(ctx, which, labels, min_count, kind='list', npseed=0):
 
 
 # ------------------------------------------------------------------ density_scatter(discrete=True)
-def chk_discrete(ctx, xs2, ys2, halves, sort, kind='list'):
-    """xs2, ys2: integers; the data are xs2/2, ys2/2 when `halves` (an order-preserving injective rescaling), else xs2, ys2."""
+def chk_discrete(ctx, xs2, ys2, halves, sort, kind='list', opts=None):
+    """xs2, ys2: integers; the data are x = (xs2 + offx) / divx, y = (ys2 + offy) / divy - order-preserving injective rescalings,
+    so that the model runs on the integers (divx = divy = 2 when `halves`, else 1, unless opts says otherwise).
+    sort: True / False / None (= not passed: the default, sorted).  opts: divx, divy, offx, offy; ykind (container kind of y when it
+    differs from that of x); ax = 'kw' | 'pos' | 'gca'; positional (discrete / sort by position); cbar; sc_kws (passed through to
+    Axes.scatter); pre = 'cloud' | 'curve' (the axes already hold a density_scatter / a rankfrequency curve)."""
     import pyrepseq.plotting as pl
     plt = _plt()
-    rep = dict(func='density_scatter', x2=list(xs2), y2=list(ys2), halves=halves, sort=sort, container=kind)
+    opts = opts or {}
+    rep = dict(func='density_scatter', x2=list(xs2), y2=list(ys2), halves=halves, sort=sort, container=kind, opts=opts)
     site = 'plotting.density_scatter'
-    d = 2.0 if halves else 1
-    x = [v / d for v in xs2]
-    y = [v / d for v in ys2]
+    divx, divy = opts.get('divx', 2 if halves else 1), opts.get('divy', 2 if halves else 1)
+    offx, offy = opts.get('offx', 0), opts.get('offy', 0)
+    x = [(v + offx) / float(divx) if divx != 1 else v + offx for v in xs2]
+    y = [(v + offy) / float(divy) if divy != 1 else v + offy for v in ys2]
     try:
         fig, ax = plt.subplots()
-        impl = call_impl(pl.density_scatter, container(kind, x), container(kind, y), ax=ax, discrete=True, sort=sort)
-        model = orun(ctx, [('api_c19_discrete_sorted' if sort else 'api_c19_discrete', [list(xs2), list(ys2)])])[0]
-        want = [(Fraction(a, 2 if halves else 1), Fraction(b, 2 if halves else 1), c) for a, b, c in model]
-        desc = 'density_scatter(%s, %s, discrete=True, sort=%s)' % (x, y, sort)
-        if impl[0] != 'ok' or len(ax.collections) != 1:
-            return [V('property', '%s -> %s, %d collections; expected one scatter of %s' % (desc, impl[0], len(ax.collections), [tuple(map(str, w)) for w in want]), rep, site)]
-        pc = ax.collections[0]
+        if opts.get('pre') == 'cloud':
+            pl.density_scatter([0, 0, 1], [1, 1, 1], ax=ax, discrete=True)
+        elif opts.get('pre') == 'curve':
+            pl.rankfrequency([4, 2, 1], ax=ax)
+        n_before = len(ax.collections)
+        a = [container(kind, x), container(opts.get('ykind', kind), y)]
+        kw = dict(opts.get('sc_kws') or {})
+        how = opts.get('ax', 'kw')
+        if opts.get('positional'):
+            a += [ax, True] + ([] if sort is None else [sort])
+        else:
+            if how == 'pos':
+                a.append(ax)
+            elif how == 'kw':
+                kw['ax'] = ax
+            kw['discrete'] = True
+            if sort is not None:
+                kw['sort'] = sort
+        if opts.get('cbar'):
+            kw['cbar'] = True
+        impl = call_impl(pl.density_scatter, *a, **kw)
+        sorted_ = sort is None or bool(sort)
+        model = orun(ctx, [('api_c19_discrete_sorted' if sorted_ else 'api_c19_discrete', [list(xs2), list(ys2)])])[0]
+        want = [(Fraction(p + offx, divx), Fraction(q + offy, divy), c) for p, q, c in model]
+        big = len(x) > 60
+        desc = 'density_scatter(%s, %s [%s], %s)' % (x if not big else '%s ... (%d values)' % (x[:12], len(x)), y if not big else '%s ...' % y[:12],
+                                                    kind + ('/' + opts['ykind'] if opts.get('ykind') else ''),
+                                                    ', '.join(['discrete=True', 'sort=%s' % ('default' if sort is None else sort)] +
+                                                              ['%s=%r' % kv for kv in sorted(opts.items()) if kv[0] in ('ax', 'cbar', 'sc_kws', 'pre', 'positional')]))
+        if impl[0] != 'ok' or len(ax.collections) != n_before + 1:
+            return [V('property', '%s -> %s, %d new collections; expected one scatter of %s' % (desc, impl[0], len(ax.collections) - n_before,
+                                                                                            [tuple(map(str, w)) for w in want]), rep, site)]
+        pc = ax.collections[-1]
         off = np.asarray(np.ma.getdata(pc.get_offsets()), dtype=float)
         arr = np.asarray(np.ma.getdata(pc.get_array()), dtype=float).ravel()
-        got = [(float(a), float(b), float(c)) for (a, b), c in zip(off.tolist(), arr.tolist())]
+        got = [(float(p), float(q), float(c)) for (p, q), c in zip(off.tolist(), arr.tolist())]
         same_len = len(off) == len(arr) == len(want)
         key = lambda t: (float(t[2]), float(t[0]), float(t[1]))
         if not same_len or sorted(got, key=key) != [tuple(map(float, w)) for w in sorted(want, key=key)]:
             return [V('property', '%s draws (x, y, colour value) %s; the distinct points with their multiplicities are %s' %
                       (desc, got, [tuple(map(str, w)) for w in want]), rep, site)]
-        if sort and any(a[2] > b[2] for a, b in zip(got, got[1:])):
+        if sorted_ and any(p[2] > q[2] for p, q in zip(got, got[1:])):
             return [V('correspondence', '%s: points are not drawn in order of ascending multiplicity: %s' % (desc, got), rep, site)]
-        if not sort and got != [tuple(map(float, w)) for w in want]:
+        if not sorted_ and got != [tuple(map(float, w)) for w in want]:
             return [V('correspondence', '%s: drawing order %s differs from the model (lexicographic) %s' % (desc, got, want), rep, site)]
         return []
     finally:
@@ -387,32 +653,71 @@ def same_partition(a, b):
     return True
 
 
-def chk_clustermap(ctx, alpha, beta, mode, index, meta, cols=('cdr3a', 'cdr3b'), link=None, clus=None, meta_dict=False):
-    """mode: 'paired' | 'alpha' | 'beta' (single chain). meta: dict column -> values."""
+def _grey(labels, min_count=None):
+    """A caller's own label -> colour function (meta_to_colors): every label the same grey."""
+    return [(0.5, 0.5, 0.5)] * len(labels)
+
+
+def chk_clustermap(ctx, alpha, beta, mode, index, meta, cols=('cdr3a', 'cdr3b'), link=None, clus=None, meta_dict=False, opts=None):
+    """mode: 'paired' | 'alpha' | 'beta' (single chain). meta: dict column -> values.
+    opts (all JSON values, carried by the replay): omit_cols (the chain columns have the default names and are not named in the call),
+    positional_cols; col_order = 'ba' | 'meta_first' (order of the columns inside the table); drop_other (single chain: the table
+    lacks the other chain); str_dtype (chain columns of pandas `string` dtype); norm = [vmin, vmax] (a matplotlib Normalize handed in);
+    bounds = list; cbar_kws = dict; meta_kind = 'tuple'; meta_to_colors = list of 'hls' | 'tableau' | 'grey'; kws = dict passed
+    through to the cluster map ('figsize' as list, 'xticklabels' / 'yticklabels' = 'labels' for one label per row)."""
     import pyrepseq.plotting as pl
     import scipy.cluster.hierarchy as hc
+    import matplotlib as mpl
     plt = _plt()
+    opts = opts or {}
     rep = dict(func='similarity_clustermap', alpha=list(alpha), beta=list(beta), mode=mode, index=list(index), meta=meta, cols=list(cols),
-               linkage_kws=link, cluster_kws=clus, meta_dict=meta_dict)
+               linkage_kws=link, cluster_kws=clus, meta_dict=meta_dict, opts=opts)
     site = 'plotting.similarity_clustermap'
     data = {cols[0]: list(alpha), cols[1]: list(beta)}
+    if opts.get('drop_other') and mode != 'paired':
+        del data[cols[1] if mode == 'alpha' else cols[0]]
     data.update(meta)
     df = pd.DataFrame(data, index=list(index))
+    if opts.get('col_order') == 'ba':
+        df = df[list(df.columns)[::-1]]
+    elif opts.get('col_order') == 'meta_first':
+        df = df[list(meta) + [c for c in df.columns if c not in meta]]
+    if opts.get('str_dtype'):
+        df = df.astype({c: 'string' for c in cols if c in df.columns})
     before = df.copy()
+    a = []
     kw = dict(alpha_column=cols[0] if mode != 'beta' else None, beta_column=cols[1] if mode != 'alpha' else None)
+    if opts.get('omit_cols') and mode == 'paired' and tuple(cols) == ('cdr3a', 'cdr3b'):
+        kw = {}
+    elif opts.get('positional_cols'):
+        a, kw = [kw['alpha_column'], kw['beta_column']], {}
     lk = dict(method='average', optimal_ordering=True) if link is None else dict(link)
     ck = dict(t=6, criterion='distance') if clus is None else dict(clus)
     if link is not None:
         kw['linkage_kws'] = dict(link)
     if clus is not None:
         kw['cluster_kws'] = dict(clus)
+    fs = dict(hls=pl.labels_to_colors_hls, tableau=pl.labels_to_colors_tableau, grey=_grey)
     if meta:
-        kw['meta_columns'] = {c: c.upper() for c in meta} if meta_dict else list(meta)
-    desc = 'similarity_clustermap(table %s=%s %s=%s index=%s meta=%s, %s)' % (cols[0], list(alpha), cols[1], list(beta), list(index), meta,
-                                                                          ', '.join('%s=%r' % kv for kv in kw.items()))
+        kw['meta_columns'] = {c: c.upper() for c in meta} if meta_dict else (tuple(meta) if opts.get('meta_kind') == 'tuple' else list(meta))
+    if opts.get('meta_to_colors'):
+        names = opts['meta_to_colors']
+        kw['meta_to_colors'] = [fs[names[i % len(names)]] for i in range(len(meta) + 1)]
+    if opts.get('norm'):
+        kw['norm'] = mpl.colors.Normalize(*opts['norm'])
+    if opts.get('bounds'):
+        kw['bounds'] = np.array(opts['bounds'])
+    if opts.get('cbar_kws'):
+        kw['cbar_kws'] = dict(opts['cbar_kws'])
+    for k_, v_ in (opts.get('kws') or {}).items():
+        kw[k_] = tuple(v_) if k_ == 'figsize' else (['s%d' % i for i in range(len(alpha))] if v_ == 'labels' else v_)
+    cbar_given = dict(kw['cbar_kws']) if 'cbar_kws' in kw else None
+    desc = 'similarity_clustermap(table %s=%s %s=%s index=%s meta=%s columns=%s%s, %s)' % (
+        cols[0], list(alpha), cols[1], list(beta), list(index), meta, list(df.columns), ' (string dtype)' if opts.get('str_dtype') else '',
+        ', '.join([repr(v) for v in a] + ['%s=%r' % kv for kv in kw.items()]))
     try:
         np.random.seed(0)
-        impl = call_impl(pl.similarity_clustermap, df, **kw)
+        impl = call_impl(pl.similarity_clustermap, df, *a, **kw)
         if impl[0] != 'ok':
             return [V('property', '%s -> %s' % (desc, impl), rep, site)]
         cg, linkage, cluster = impl[1]
@@ -448,6 +753,8 @@ def chk_clustermap(ctx, alpha, beta, mode, index, meta, cols=('cdr3a', 'cdr3b'),
             return [V('property', '%s: the drawn mesh holds %s, expected %s' % (desc, None if shown is None else shown.tolist(), mat), rep, site)]
         if not df.equals(before):
             return [V('correspondence', '%s modified the caller\'s table' % desc, rep, site)]
+        if cbar_given is not None and kw['cbar_kws'] != cbar_given:
+            return [V('correspondence', '%s modified the caller\'s cbar_kws: %s' % (desc, kw['cbar_kws']), rep, site)]
         return []
     finally:
         plt.close('all')
@@ -467,6 +774,26 @@ def gen_chain(rng, n):
                 del s[p]
             else:
                 s.insert(p, rng.choice(LETTERS))
+        out.append(''.join(s))
+    return out
+
+
+def gen_chain_long(rng, n):
+    """CDR3-like chains of 10-20 residues over the twenty amino acids, 0-8 edits away from one to three random roots: distances
+    far beyond the colour bounds 0..6 and beyond the default cluster threshold."""
+    roots = ['C' + ''.join(rng.choice(AA20) for _ in range(rng.randint(8, 18))) + 'F' for _ in range(rng.randint(1, 3))]
+    out = []
+    for _ in range(n):
+        s = list(rng.choice(roots))
+        for _ in range(rng.choice([0, 1, 2, 4, 8])):
+            op = rng.random()
+            p = rng.randrange(1, len(s))
+            if op < 0.5:
+                s[p] = rng.choice(AA20)
+            elif op < 0.75 and len(s) > 3:
+                del s[p]
+            else:
+                s.insert(p, rng.choice(AA20))
         out.append(''.join(s))
     return out
 
@@ -544,9 +871,323 @@ def run(ctx):
         ctx._c19_live = None
 
 
+def fits(kind, values):
+    return not values or (np.iinfo(kind).min <= min(values) and max(values) <= np.iinfo(kind).max)
+
+
+LOGO_KWS = [dict(color_scheme='hydrophobicity'), dict(show_spines=True, baseline_width=0.5), dict(stack_order='small_on_top'), dict(vpad=0.1, width=0.8), {}]
+STEP_KWS = [dict(where='post'), dict(where='mid', color='k'), dict(label='clones', lw=2), dict(linestyle='--', alpha=0.5)]
+SCATTER_KWS = [dict(s=3, cmap='magma'), dict(marker='s', alpha=0.5, edgecolors='none'), dict(vmin=0, rasterized=True), dict(label='pts', linewidths=0)]
+CMAP_BUNDLES = [
+    dict(omit_cols=True),
+    dict(positional_cols=True, col_order='ba'),
+    dict(norm=[0, 12]),
+    dict(bounds=[0, 2, 4, 6, 8, 12]),
+    dict(cbar_kws=dict(label='d', orientation='vertical')),
+    dict(meta_to_colors=['tableau', 'grey'], meta_kind='tuple'),
+    dict(kws=dict(figsize=[3, 3], dendrogram_ratio=0.2, colors_ratio=0.05)),
+    dict(kws=dict(annot=True, linewidths=0.5)),
+    dict(kws=dict(xticklabels='labels', yticklabels='labels')),
+    dict(str_dtype=True, col_order='meta_first'),
+    dict(drop_other=True),
+    dict(norm=[0, 20], cbar_kws=dict(label='x'), kws=dict(figsize=[3.5, 3.5])),
+    dict(omit_cols=True, bounds=[0, 1, 2, 3], meta_to_colors=['grey']),
+    dict(positional_cols=True, str_dtype=True, kws=dict(annot=True)),
+]
+
+
+def _run_wide(ctx):
+    """Widening of every family of _run: sizes beyond one digit / one byte / the model's comfortable range, the remaining container
+    kinds, every parameter of the public signatures (defaults left out, positional passing, pass-through keyword arguments),
+    repeated calls on one object (also refilled in place in between) and artists sharing one Axes."""
+    rng = ctx.rng
+    q = ctx.quick
+    wall = ctx.extra.setdefault('section_wall_s', {})
+    t0 = time.time()
+    # ---- (a2) alignments
+    wide = [gen_alignment_wide(rng) for _ in range(6 if q else 80)]
+    wide += [gen_alignment_wide(rng, n=1000, L=8)] if q else [gen_alignment_wide(rng, n=rng.choice([1000, 2000]), L=rng.choice([8, 20, 64])) for _ in range(6)]
+    wide += [gen_alignment_wide(rng, n=rng.choice([2, 3, 5]), L=rng.choice([64, 130, 260]))]         # sequences longer than 127 / 255
+    extra = [gen_alignment(rng, q) for _ in range(40 if q else 500)]
+    for k, seqs in enumerate(wide + extra):
+        is_wide = k < len(wide)
+        kind = STR_KINDS[k % len(STR_KINDS)]
+        opts = dict(positional=(k % 3 == 0), twice=(None, 'refill', 'same', None, 'refill')[k % 5], np_bool=(k % 4 == 1))
+        gapless = not any(c in GAPS for s in seqs for c in s)
+        nt = any(len({s[p] for s in seqs if s[p] not in GAPS}) > 1 for p in range(len(seqs[0])))
+        ctx.count('wide_alignment_%s' % ('n>=100' if len(seqs) >= 100 else 'n>=9' if len(seqs) >= 9 else 'long' if is_wide else 'small'))
+        ctx.count('alignment_container_' + kind)
+        if opts['twice']:
+            ctx.count('alignment_called_twice_' + opts['twice'])
+        tests, full = regex_tests(rng, seqs, 1500 if q else 6000)
+        vs = chk_regex(ctx, seqs, tests, kind, opts)
+        if vs and vs[0]['kind'] == 'property':
+            sh = shrink_alignment(seqs, lambda ss: any(v['kind'] == 'property' for v in chk_regex(ctx, ss, regex_tests(rng, ss, 1500)[0], kind, opts)))
+            vs = [v for v in chk_regex(ctx, sh, regex_tests(rng, sh, 1500)[0], kind, opts) if v['kind'] == 'property'][:1] or vs
+        _report(ctx, vs)
+        vc = chk_consensus(ctx, seqs, kind, opts)
+        if vc and vc[0]['kind'] == 'property':
+            sh = shrink_alignment(seqs, lambda ss: any(v['kind'] == 'property' for v in chk_consensus(ctx, ss, kind, opts)))
+            vc = chk_consensus(ctx, sh, kind, opts) or vc
+        _report(ctx, vc)
+        ctx.case(sample=dict(func='seqs_to_regex/consensus', n=len(seqs), L=len(seqs[0]), first=seqs[0], container=kind, opts=opts) if is_wide and k % 4 == 0 else None,
+                 nontrivial_key=('align-wide', tuple(seqs), kind) if nt else None)
+        if (is_wide and len(seqs[0]) <= (14 if q else 33) and k % 2 == 0) or (not is_wide and k % (5 if q else 3) == 0):
+            lk = ['list', 'array', 'series_str', 'series_perm', 'tuple', 'dfcol', 'series_string'][k % 7]
+            lo = dict(ax=(None, 'kw', 'pos')[k % 3], logo_kws=LOGO_KWS[k % len(LOGO_KWS)])
+            ctx.count('seqlogos_ax_%s' % lo['ax'])
+            if lo['logo_kws']:
+                ctx.count('seqlogos_logo_kwargs')
+            vl = chk_counts(ctx, seqs, lk, None, lo)
+            if vl and vl[0]['kind'] == 'property':
+                sh = shrink_alignment(seqs, lambda ss: bool(chk_counts(ctx, ss, lk, None, lo)))
+                vl = chk_counts(ctx, sh, lk, None, lo) or vl
+            _report(ctx, vl)
+            ctx.case(nontrivial_key=('logo-wide', tuple(seqs), lk) if nt else None)
+        if len(ctx.violations) > 6:
+            return
+    wall['a2_alignments'] = round(time.time() - t0, 1)
+    t0 = time.time()
+    # ---- (b2) rankfrequency
+    flags = list(itertools.product([False, True], repeat=4))
+    scales = [Fraction(1), Fraction(2), Fraction(1, 2), Fraction(3), Fraction(1, 4)]
+    sizes_big = [127, 128, 255, 256, 257, 300] + ([1000, 2 ** 15 + 3] if q else [1000, 1000, 2 ** 15 + 3, 2 ** 16 + 1])
+    nb = 64 if q else 960
+    for k in range(nb + len(sizes_big)):
+        normx, normy, logx, logy = flags[(k * 5 + k // 16) % 16]
+        big = k >= nb
+        m = sizes_big[k - nb] if big else rng.choice([0, 1, 2, 3, 5, 13, 30, 64])
+        integral = k % 2 == 0 or big
+        top = rng.choice([3, 10, 200, 1000, 70000, 2 ** 33])
+        nmiss = 0
+        data = []
+        while len(data) - nmiss < m:          # m counts the non-missing values: that many ranks are drawn
+            r = rng.random()
+            if r < (0.0 if k % 4 == 0 else 0.01 if big else 0.15):
+                data.append(None)
+                nmiss += 1
+            elif r < 0.22:
+                data.append(Fraction(0))
+            elif integral:
+                data.append(Fraction(rng.randint(1, top)))
+            else:
+                data.append(Fraction(rng.randint(1, 64), rng.choice([1, 2, 4, 8])))
+        ks = rank_kinds(data)
+        narrow = [x for x in ks if x in NP_INT_KINDS or x in ('Int64', 'Float64')]
+        general = [x for x in ks if x not in narrow]
+        use_narrow = (k % 3 != 2) if len(narrow) > 2 else (k % 3 == 0)
+        kind = (narrow if use_narrow else general)[(k // 3) % len(narrow if use_narrow else general)]
+        use_gca = k % 7 == 3
+        # integral scale factors handed over as int: not with a NumPy integer array (see NOTES.md, POSSIBLE DEFECT: the product wraps)
+        opts = dict(omit_defaults=(k % 2 == 0), ax_positional=(k % 3 == 1),
+                    int_scales=(k % 4 < 2 and (kind not in NP_INT_KINDS or bool(os.environ.get('PV_PENDING_C19')))))
+        if k % 4 == 2:
+            opts['tx'] = [str(v) for v in rng.choice([(Fraction(2), Fraction(1)), (Fraction(1, 2), Fraction(0)), (Fraction(3), Fraction(-1)), (Fraction(1), Fraction(5, 2))])]
+        if k % 5 == 0:
+            opts['step_kws'] = rng.choice(STEP_KWS)
+        if k % 6 >= 4:
+            opts['pre'] = 'curve' if k % 6 == 4 else 'scatter'
+        sx, sy = (rng.choice(scales), rng.choice(scales)) if k % 3 == 0 else (Fraction(1), Fraction(1))
+        nm = [v for v in data if v is not None]
+        nt = len(set(nm)) >= 2
+        ctx.count('rank_container_' + kind)
+        ctx.count('rank_size_%s' % ('>=2^15' if m >= 2 ** 15 else '>=1000' if m >= 1000 else '>=127' if m >= 127 else '<=64'))
+        for name in ('omit_defaults', 'ax_positional', 'tx', 'step_kws', 'pre'):
+            if opts.get(name):
+                ctx.count('rank_opt_' + name)
+        if opts['omit_defaults'] and (normx, normy, logx, logy) == (True, False, True, True) and sx == sy == 1:
+            ctx.count('rank_all_defaults')
+        shift = 1 if k % 5 == 1 else 0
+        vs = chk_rank(ctx, data, normx, normy, logx, logy, sx, sy, kind, use_gca=use_gca, shift=shift, opts=opts)
+        if vs and data:
+            sh = shrink_list(data, lambda dd: kind in rank_kinds(dd) and bool(chk_rank(ctx, dd, normx, normy, logx, logy, sx, sy, kind, use_gca, shift, opts)), 60)
+            vs = chk_rank(ctx, sh, normx, normy, logx, logy, sx, sy, kind, use_gca, shift, opts) or vs
+        _report(ctx, vs)
+        ctx.case(sample=dict(func='rankfrequency', m=m, container=kind, opts=opts, normalize_x=normx, normalize_y=normy) if nt and k % 23 == 0 else None,
+                 nontrivial_key=('rank-wide', tuple(map(str, data)) if m < 100 else (m, str(sum(nm))), kind, normx, normy, str(sx), str(sy), repr(sorted(opts.items()))) if nt else None)
+        if len(ctx.violations) > 6:
+            return
+    if os.environ.get('PV_PENDING_C19'):
+        # NOTES.md, POSSIBLE DEFECT: an integer scale factor times a NumPy integer array of a narrow dtype wraps around
+        ctx.count('rank_pending_int_scale_narrow_dtype')
+        _report(ctx, chk_rank(ctx, [Fraction(200), Fraction(100)], False, False, True, True, Fraction(2), Fraction(1), 'uint8', opts=dict(int_scales=True)))
+        ctx.case()
+    wall['b2_rankfrequency'] = round(time.time() - t0, 1)
+    t0 = time.time()
+    # ---- (c2) colours
+    for k in range(90 if q else 1500):
+        which = 'hls' if k % 2 == 0 else 'tableau'
+        nlab = rng.choice([1, 2, 5, 9, 12, 20, 33, 60] + ([150] if k % 9 == 0 else []))
+        n = rng.choice([0, 1, 5, 12, 40, 300] + ([1000] if k % 10 == 0 else []))
+        if k % 9 == 4:                    # few labels, each seen several hundred times (min_count is then put next to such a count)
+            nlab, n = rng.choice([1, 2, 3]), rng.choice([300, 600, 1000])
+        style = k % 6
+        if style == 0:
+            pool = ['c%d' % i for i in range(nlab)]
+        elif style == 1:
+            pool = rng.sample(range(-200, 200), nlab)
+        elif style == 2:
+            pool = [v / 2.0 for v in rng.sample(range(-300, 300), nlab)]
+        elif style == 3:
+            pool = [rng.choice([1, -1]) * (2 ** 40 + i) for i in range(nlab)]
+        elif style == 4:
+            pool = ['CASSLGQETQYF' * 3 + ('%d' % i) * rng.randint(1, 3) + 'x' * (i % 3) for i in range(nlab)]
+            pool = sorted(set(pool))
+        else:
+            pool = [True, False][:max(1, min(2, nlab))]
+        labels = [rng.choice(pool[:rng.randint(1, len(pool))]) for _ in range(n)]
+        if n >= 40 and len(pool) <= n:
+            labels = (list(pool) + labels)[:n]
+            rng.shuffle(labels)
+        str_labels = style in (0, 4)
+        kinds_c = ['list', 'tuple', 'array', 'series', 'series_str', 'series_perm', 'series_cat', 'dfcol'] + (['series_string', 'array_obj'] if str_labels else []) + \
+                  (['int32', 'int64'] if style == 1 else [])
+        kind = kinds_c[(k // 6) % len(kinds_c)]
+        mc = rng.choice([None, 0, 1, 2, 3, 5, 10, 1000])
+        if labels and k % 3 == 1:         # min_count at / next to the count of one of the labels (also counts of three digits)
+            mc = max(0, labels.count(rng.choice(labels)) + rng.choice([-1, 0, 0, 1]))
+        opts = dict(positional=(k % 3 == 0), mc_np=(k % 4 == 1))
+        if which == 'hls' and k % 4 in (0, 2):
+            opts['palette_kws'] = rng.choice([dict(l=0.3, s=0.4), dict(h=0.3), dict(l=0.7, s=1.0, h=0.5)])
+        npseed = None if k % 2 == 0 else rng.randrange(2 ** 31)
+        nt = len(set(labels)) >= 2
+        ctx.count('colours_wide_%s_%s' % (which, 'labels>8' if len(set(labels)) > 8 else 'labels<=8'))
+        ctx.count('colours_container_' + kind)
+        ctx.count('colours_label_style_%d' % style)
+        if labels and max(labels.count(v) for v in set(labels)) > 255:
+            ctx.count('colours_count>255')
+        if not labels:
+            ctx.count('colours_empty')
+        if mc is not None and any(labels.count(v) > 255 and abs(labels.count(v) - mc) <= 1 for v in set(labels)):
+            ctx.count('colours_min_count_next_to_count>255')
+        for name in ('positional', 'palette_kws', 'mc_np'):
+            if opts.get(name):
+                ctx.count('colours_opt_' + name)
+        vs = chk_colours(ctx, which, labels, mc, kind, npseed, opts)
+        if vs and vs[0]['kind'] == 'property' and labels:
+            sh = shrink_list(labels, lambda ll: any(v['kind'] == 'property' for v in chk_colours(ctx, which, ll, mc, kind, npseed, opts)), 80)
+            vs = chk_colours(ctx, which, sh, mc, kind, npseed, opts) or vs
+        _report(ctx, vs)
+        ctx.case(sample=dict(func='labels_to_colors_' + which, n=n, distinct=len(set(labels)), min_count=mc, container=kind, opts=opts) if nt and k % 31 == 0 else None,
+                 nontrivial_key=('col-wide', which, tuple(map(str, labels)), mc, kind, repr(sorted(opts.items()))) if nt else None)
+        if len(ctx.violations) > 6:
+            return
+    wall['c2_colours'] = round(time.time() - t0, 1)
+    t0 = time.time()
+    # ---- (d2) density_scatter discrete
+    for k in range(70 if q else 1000):
+        n = rng.choice([1, 2, 6, 40, 300] + ([1000, 5000] if k % 8 == 0 else []))
+        rx, ry = (rng.choice([0, 1, 2]), rng.choice([0, 1, 3])) if n >= 300 else (rng.choice([1, 2, 6, 100]), rng.choice([1, 2, 6, 100]))
+        xs = [rng.randint(-rx, rx) for _ in range(n)]
+        ys = [rng.randint(0, ry) for _ in range(n)]
+        opts = dict(divx=rng.choice([1, 1, 2, 3, 10]), divy=rng.choice([1, 1, 2, 3, 10]), ax=('kw', 'pos', 'gca')[k % 3])
+        if k % 5 == 0:
+            opts['offx'], opts['offy'] = rng.choice([10 ** 6, -50, 2 ** 31]), rng.choice([0, 10 ** 6])
+        if k % 4 == 0:
+            opts['positional'] = True
+        if k % 5 == 1:
+            opts['cbar'] = True
+        if k % 3 == 1:
+            opts['sc_kws'] = rng.choice(SCATTER_KWS)
+        if k % 7 >= 5:
+            opts['pre'] = 'cloud' if k % 7 == 5 else 'curve'
+        vx = [v + opts.get('offx', 0) for v in xs]
+        vy = [v + opts.get('offy', 0) for v in ys]
+        kinds_x = ['list', 'tuple', 'array', 'series', 'series_str', 'series_perm', 'series_dup', 'dfcol'] + \
+                  ([kd for kd in NP_INT_KINDS if fits(kd, vx)] if opts['divx'] == 1 else [])
+        kind = kinds_x[(k // 3) % len(kinds_x)]
+        if k % 2 == 0:
+            kinds_y = ['list', 'array', 'series_str'] + ([kd for kd in NP_INT_KINDS if fits(kd, vy)] if opts['divy'] == 1 else [])
+            yk = kinds_y[(k // 2) % len(kinds_y)]
+            if kind.startswith('series') or kind == 'dfcol':
+                yk = kind          # two Series are paired by position only when they share their index
+            if yk != kind:
+                opts['ykind'] = yk
+        if kind in NP_INT_KINDS and 'ykind' not in opts and (opts['divy'] != 1 or not fits(kind, vy)):
+            opts['ykind'] = 'array'
+        sort = (None, True, False)[k % 3]
+        nt = len(set(zip(xs, ys))) < n
+        ctx.count('discrete_wide_n_%s' % ('>=300' if n >= 300 else '<=40'))
+        if n and max(list(zip(xs, ys)).count(pt) for pt in set(zip(xs, ys))) > 255:
+            ctx.count('discrete_multiplicity>255')
+        ctx.count('discrete_container_%s' % kind + ('/' + opts['ykind'] if opts.get('ykind') else ''))
+        ctx.count('discrete_sort_%s' % ('default' if sort is None else sort))
+        ctx.count('discrete_ax_' + ('positional' if opts.get('positional') else opts['ax']))
+        for name in ('cbar', 'sc_kws', 'pre', 'offx'):
+            if opts.get(name):
+                ctx.count('discrete_opt_' + name)
+        vs = chk_discrete(ctx, xs, ys, False, sort, kind, opts)
+        if vs and vs[0]['kind'] == 'property':
+            pts = shrink_list(list(zip(xs, ys)), lambda pp: any(v['kind'] == 'property' for v in chk_discrete(ctx, [p[0] for p in pp], [p[1] for p in pp], False, sort, kind, opts)), 80)
+            vs = chk_discrete(ctx, [p[0] for p in pts], [p[1] for p in pts], False, sort, kind, opts) or vs
+        _report(ctx, vs)
+        ctx.case(sample=dict(func='density_scatter', n=n, distinct=len(set(zip(xs, ys))), sort=sort, container=kind, opts=opts) if nt and k % 19 == 0 else None,
+                 nontrivial_key=('disc-wide', tuple(xs), tuple(ys), sort, kind, repr(sorted(opts.items()))) if nt else None)
+        if len(ctx.violations) > 6:
+            return
+    wall['d2_density_scatter'] = round(time.time() - t0, 1)
+    t0 = time.time()
+    # ---- (e2) similarity_clustermap: the remaining parameters, larger tables, longer chains
+    for k in range(len(CMAP_BUNDLES) if q else 8 * len(CMAP_BUNDLES)):
+        opts = dict(CMAP_BUNDLES[k % len(CMAP_BUNDLES)])
+        shape = (k + k // len(CMAP_BUNDLES)) % 5
+        if shape == 0:
+            n = rng.randint(24, 40) if q else (130 if k == 5 * len(CMAP_BUNDLES) else rng.choice([24, 32, 40, 48, 60]))
+            alpha, beta = gen_chain(rng, n), gen_chain(rng, n)
+        elif shape in (1, 3):
+            n = rng.randint(2, 8)
+            alpha, beta = gen_chain_long(rng, n), gen_chain_long(rng, n)
+        elif shape == 2:
+            n = rng.randint(2, 7)
+            alpha, beta = gen_shifted_pairs(rng, n)
+        else:
+            n = rng.randint(2, 9)
+            alpha, beta = gen_chain(rng, n), gen_chain(rng, n)
+        mode = rng.choice(['alpha', 'beta']) if opts.get('drop_other') else ('paired' if (opts.get('omit_cols') or k % 4) else rng.choice(['alpha', 'beta']))
+        index = gen_index(rng, n)
+        meta = {}
+        nmeta = 2 if opts.get('meta_kind') else rng.choice([0, 1, 2]) if (opts.get('col_order') == 'meta_first' or k % 3 == 0) else 0
+        if opts.get('col_order') == 'meta_first':
+            nmeta = max(1, nmeta)
+        for c in ['epitope', 'subject'][:nmeta]:
+            meta[c] = [rng.choice(['x', 'y', 'z']) if c == 'epitope' else rng.randint(1, 3) for _ in range(n)]
+        cols = ('cdr3a', 'cdr3b') if (opts.get('omit_cols') or k % 2) else ('CDR3A', 'CDR3B')
+        link = None if k % 3 == 0 else rng.choice([dict(method='weighted'), dict(method='single'), dict(method='complete', optimal_ordering=True),
+                                                  dict(method='weighted', optimal_ordering=True)])
+        if mode == 'paired':
+            summed = orun(ctx, [('api_c19_clustermap', [alpha, beta, list(range(n))])])[0][0]
+        else:
+            summed = orun(ctx, [('api_c19_single', [alpha if mode == 'alpha' else beta, list(range(n))])])[0][0]
+        clus = None if k % 3 == 1 else (dict(t=rng.randint(1, max(1, min(5, n))), criterion='maxclust') if k % 3 == 2 else
+                                        dict(t=rng.choice(between_thresholds(summed)), criterion='distance'))
+        ctx.count('clustermap_wide_%s' % ('n>=24' if n >= 24 else 'long_chains' if shape in (1, 3) else 'small'))
+        for name in sorted(opts):
+            ctx.count('clustermap_opt_' + name + ('_' + '+'.join(sorted(opts['kws'])) if name == 'kws' else ''))
+        if clus and clus.get('criterion') == 'maxclust':
+            ctx.count('clustermap_opt_maxclust')
+        if link and link.get('method') == 'weighted':
+            ctx.count('clustermap_opt_weighted_linkage')
+        vs = chk_clustermap(ctx, alpha, beta, mode, index, meta, cols, link, clus, meta_dict=(k % 5 == 4 and not opts.get('meta_kind')), opts=opts)
+        if vs and vs[0]['kind'] == 'property' and n > 2:
+            small = {kk: vv for kk, vv in opts.items() if kk not in ('kws',) or 'labels' not in (vv or {}).values()}
+            rows = shrink_list(list(zip(alpha, beta)), lambda rr: len(rr) >= 2 and any(
+                v['kind'] == 'property' for v in chk_clustermap(ctx, [r[0] for r in rr], [r[1] for r in rr], mode, list(range(len(rr))), {}, cols, link, clus,
+                                                                opts={kk: vv for kk, vv in small.items() if kk not in ('meta_kind', 'col_order')})), 40)
+            vs = chk_clustermap(ctx, [r[0] for r in rows], [r[1] for r in rows], mode, list(range(len(rows))), {}, cols, link, clus,
+                                opts={kk: vv for kk, vv in small.items() if kk not in ('meta_kind', 'col_order')}) or vs
+        _report(ctx, vs)
+        nt = len(set(summed)) >= 2
+        ctx.case(sample=dict(func='similarity_clustermap', n=n, mode=mode, opts=opts, linkage_kws=link, cluster_kws=clus) if nt and k % 5 == 0 else None,
+                 nontrivial_key=('cmap-wide', tuple(alpha), tuple(beta), mode, repr(sorted(opts.items()))) if nt else None)
+        if len(ctx.violations) > 6:
+            return
+    wall['e2_clustermap'] = round(time.time() - t0, 1)
+
+
 def _run(ctx):
     rng = ctx.rng
     q = ctx.quick
+    t_run0 = time.time()
     ctx.rule = ('(a) equal-length sequence lists (1-7 sequences, 1-7 columns, 1-6 residues, 45% pre-aligned with "." / "-" gaps, every column '
                 'keeping a residue; all lists of 1-3 sequences of length 1-2 over {A, C, -} exhaustively) through seqs_to_regex (string, and '
                 're.fullmatch on every string of every admissible length over the observed residues plus a foreign letter), seqs_to_consensus, '
@@ -554,7 +1195,16 @@ def _run(ctx):
                 '(c) label vectors x min_count None/1..4 x hls / tableau; (d) integer / half-integer point clouds through density_scatter(discrete) '
                 '(PathCollection read back); (e) paired / single-chain tables with arbitrary index and metadata through similarity_clustermap '
                 '(data2d, mesh, dendrogram order, linkage, clusters), plus paired tables whose rows cut shared joined words at different '
-                'alpha / beta boundaries or exchange the chains, clustered at thresholds between the distinct summed distances. non-trivial := (a) a column with two or more residues, (b) at least two '
+                'alpha / beta boundaries or exchange the chains, clustered at thresholds between the distinct summed distances; (a2-e2, widening) the same five '
+                'comparisons on: alignments of 9-1000 sequences / 8-260 columns over the whole residue alphabet with nearly tied and half-gapped columns, '
+                'sequences as object array / string dtype / Series with string, reversed or repeated index / DataFrame column, align by position or as '
+                'numpy.False_, second calls on one object (also refilled in place), seqlogos with a given Axes and logomaker keyword arguments; rank curves '
+                'with only the non-default options passed, transform_x, Axes.step keyword arguments, integer and nullable dtypes, 64 to 2**15+3 values, axes '
+                'already in use; label vectors of up to 150 distinct / 1000 labels (floats, booleans, large integers, long strings, categorical), min_count 0, '
+                'large, next to an actual count and by position, palette_kws; point clouds of up to 5000 points (multiplicity above 255), int x with '
+                'fractional y, integer dtypes, ax omitted / positional, sort omitted, cbar, Axes.scatter keyword arguments; cluster maps with omitted / '
+                'positional column names, norm, bounds, cbar_kws, meta_to_colors, clustermap keyword arguments, weighted linkage, maxclust, 24-40 rows, chains '
+                'of 10-20 residues. non-trivial := (a) a column with two or more residues, (b) at least two '
                 'distinct values, (c) at least two distinct labels, (d) a repeated point, (e) at least two distinct distances')
     kinds = ['list', 'list', 'tuple', 'array', 'series']
     # ---- (a) exhaustive small domain
@@ -736,6 +1386,8 @@ def _run(ctx):
                  nontrivial_key=('cmap-shift', tuple(alpha), tuple(beta), clus['t']) if nt else None)
         if len(ctx.violations) > 6:
             return
+    ctx.extra.setdefault('section_wall_s', {})['a_to_e_original'] = round(time.time() - t_run0, 1)
+    _run_wide(ctx)
     ctx.assumptions += [
         'Python `re` implements full-match semantics for the emitted subset (literal, bracketed class, `?`); residues are letters / digits '
         '(no regex metacharacters), the stated domain',
@@ -746,6 +1398,8 @@ def _run(ctx):
         'compared with SciPy run on the model\'s summed distances',
         'numpy.random.shuffle yields a permutation (the colour theorem holds for every permutation); seaborn.hls_palette(k) has k distinct non-black colours',
         'seqs_to_regex / seqs_to_consensus with align=True and seqlogos on unequal lengths need the external mafft-linsi (absent): outside the model',
+        'rank curves of more than %d values are compared with the statement computed in exact rationals by the harness (spec_rank), which is '
+        'itself compared with the extracted model on every shorter rank case of the run' % ORACLE_RANK_MAX,
     ]
 
 
@@ -763,27 +1417,28 @@ def _replay(ctx, obj):
     r = obj.get('replay') or {}
     f = r.get('func')
     rng = ctx.rng
+    o = r.get('opts')
     if f == 'seqs_to_regex':
         seqs = r['seqs']
         tests = regex_tests(rng, seqs, 6000)[0]
         if r.get('witness') is not None and r['witness'] not in tests:
             tests.append(r['witness'])
-        vs = chk_regex(ctx, seqs, tests, r.get('container', 'list'))
+        vs = chk_regex(ctx, seqs, tests, r.get('container', 'list'), o)
     elif f == 'seqs_to_consensus':
-        vs = chk_consensus(ctx, r['seqs'], r.get('container', 'list'))
+        vs = chk_consensus(ctx, r['seqs'], r.get('container', 'list'), o)
     elif f == 'seqlogos':
-        vs = chk_counts(ctx, r['seqs'], r.get('container', 'list'), r.get('index'))
+        vs = chk_counts(ctx, r['seqs'], r.get('container', 'list'), r.get('index'), o)
     elif f == 'rankfrequency':
         data = [None if v is None else Fraction(v) for v in r['data']]
         vs = chk_rank(ctx, data, r['normalize_x'], r['normalize_y'], r['log_x'], r['log_y'], Fraction(r['scalex']), Fraction(r['scaley']),
-                      r.get('container', 'list'), r.get('use_gca', False), r.get('shift', 0))
+                      r.get('container', 'list'), r.get('use_gca', False), r.get('shift', 0), o)
     elif f in ('labels_to_colors_hls', 'labels_to_colors_tableau'):
-        vs = chk_colours(ctx, f.rsplit('_', 1)[1], r['labels'], r['min_count'], r.get('container', 'list'), r.get('npseed', 0))
+        vs = chk_colours(ctx, f.rsplit('_', 1)[1], r['labels'], r['min_count'], r.get('container', 'list'), r.get('npseed', 0), o)
     elif f == 'density_scatter':
-        vs = chk_discrete(ctx, r['x2'], r['y2'], r['halves'], r['sort'], r.get('container', 'list'))
+        vs = chk_discrete(ctx, r['x2'], r['y2'], r['halves'], r['sort'], r.get('container', 'list'), o)
     elif f == 'similarity_clustermap':
         vs = chk_clustermap(ctx, r['alpha'], r['beta'], r['mode'], r['index'], r['meta'], tuple(r['cols']), r.get('linkage_kws'), r.get('cluster_kws'),
-                            r.get('meta_dict', False))
+                            r.get('meta_dict', False), o)
     else:
         return _run(ctx)
     ctx.case(sample=r)
